@@ -8,6 +8,10 @@ CHECKS = {
    text='Every operator method of the 11 fixed-width classes is verified against the contract "exact result reduced mod 2^n into the wider operand type" for ALL operand values (one obligation per method x class pair x clause). Call sites use callee contracts (maxcast, constructors, __eq__/__lt__).',
    note='Trusted: z3 unsat answers; pyvc encoding of Python int semantics (floor div/mod, exact float constants); & | ^ << >> ** on unbounded ints as uninterpreted functions shared by code and spec; spec functions norm/wider. Shift counts/exponents >= 0, divisor != 0 are preconditions.',
    ref='5 C14'),
+ 'C05': dict(cat='other', tech='contracts on expr_simp checked per tree shape: real expr_simp on enumerated fresh trees, den(e) = den(simp e) proved for ALL valuations by z3 (shape-bounded SMT); helper parity() proved by VC generation (pyvc)',
+   text='Shape-bounded, valuation-unbounded: for ~70k (quick) / ~300k (thorough) enumerated well-typed trees (every rewrite rule x boundary constants, all depth-1 trees, two-level operator trees, seeded random depth<=4) the real simplifier result is proved equal to the input for all valuations of identifiers and memory, same width, well-typed, argument nodes unmodified (frame), also with shared sub-term objects. Termination is a bounded observation (5 s per tree). _expr_simp/merge_sliceto_slice are not proved inductively.',
+   note='Trusted: z3; the IR denotation liftvc/den.py (S-ir) cross-checked by the independent interpreter specs/irsem.py; flat memory. Bounded in tree shape and constants.',
+   ref='5 C05'),
 }
 NOT_YET = {}
 ALL = ['C%02d' % i for i in range(1, 20)]
@@ -35,7 +39,8 @@ def main():
         'hooks': {'guard': 'LRGH_MIASMX_VERIF', 'enable': 'unused: contracts are sidecar files under /verif/contracts, /repo is not instrumented',
                   'baseline_off_cmd': BASE_OFF, 'source_commits': [], 'add_only': True},
         'engines': [
-            {'name': 'pyvc', 'path': 'pyvc/', 'serves_properties': ['C14'], 'kind_free_text': 'Engine A: AST -> verification conditions (symbolic execution with callee contracts), z3'},
+            {'name': 'liftvc', 'path': 'liftvc/', 'serves_properties': ['C05'], 'kind_free_text': 'Engine B: IR denotation den() as z3 bit-vectors; equivalence / refinement queries over all machine states'},
+            {'name': 'pyvc', 'path': 'pyvc/', 'serves_properties': ['C14', 'C05'], 'kind_free_text': 'Engine A: AST -> verification conditions (symbolic execution with callee contracts), z3'},
         ],
         'checks': checks,
         'notes': 'single entry point ./vcheck; known findings in known_findings.jsonl; see DESIGN.md',
